@@ -2,6 +2,8 @@ package hsx
 
 import (
 	"bytes"
+	"crypto/rand"
+	"encoding/binary"
 	"fmt"
 	"net"
 	"time"
@@ -9,6 +11,7 @@ import (
 	"hop.computer/hop/certs"
 	"hop.computer/hop/config"
 	"hop.computer/hop/hopserver"
+	"hop.computer/hop/keys"
 	"hop.computer/hop/transport"
 	"verifharness/hv"
 )
@@ -257,6 +260,22 @@ func (w *World) C10Server(r *hv.Rand) {
 						var sid transport.SessionID
 						copy(sid[:], vwb.SA[4:8])
 						junk = append(junk, liveHeader(sid, r)...)
+						// well-formed transport / control packets for the PENDING session, sealed under keys
+						// anybody can try (all-zero, all-ones, random): the session has no keys yet
+						var zero, ones, rnd [16]byte
+						for i := range ones {
+							ones[i] = 0xff
+						}
+						copy(rnd[:], r.Bytes(16))
+						for _, k := range [][16]byte{zero, ones, rnd} {
+							for _, cnt := range []uint64{0, 1, 7} {
+								for _, mt := range []transport.MessageType{transport.MessageTypeTransport, transport.MessageTypeControl} {
+									if p, err := transport.VerifHsSeal(sid, k, cnt, mt, []byte{1}); err == nil {
+										junk = append(junk, p)
+									}
+								}
+							}
+						}
 					}
 				}
 				total += len(junk)
@@ -593,5 +612,219 @@ func (w *World) C10HopServer(r *hv.Rand) {
 		}
 		q.Emit("hopserver-built/"+c.name, fmt.Sprintf("hopserver.NewHopServer(%s): ClientAcks behind valid cookies carrying %d server names (labels x id types 0..255, malformed blocks), then probe", c.name, len(snis)),
 			ok, "C10:endpoint-wedged-after-junk", msg, true)
+	}
+}
+
+// ---------------------------------------------------------------- crafted certificate blocks
+
+// certBlocks: plaintexts for the ENCRYPTED certificate block (two length-prefixed vectors: leaf,
+// intermediate) whose inner length fields are exact, off by +1 / +2 / +3 / -1, zero, 65535 — for
+// either vector — and a few degenerate blocks. The peer that sends them needs no certificate it
+// could authenticate with: the block is parsed before any tag or MAC is checked.
+func certBlocks(leaf, inter []byte) (blocks [][]byte, names []string) {
+	base := vectors(leaf, inter)
+	add := func(n string, b []byte) { blocks = append(blocks, b); names = append(names, n) }
+	add("well-formed vectors", base)
+	setLen := func(off, v int) []byte {
+		x := append([]byte(nil), base...)
+		x[off], x[off+1] = byte(v>>8), byte(v)
+		return x
+	}
+	for _, d := range []int{1, 2, 3, -1} {
+		add(fmt.Sprintf("leaf length field %+d", d), setLen(0, len(leaf)+d))
+		add(fmt.Sprintf("intermediate length field %+d", d), setLen(2+len(leaf), len(inter)+d))
+		// ... and so that the announced length overshoots the END of the block by d
+		add(fmt.Sprintf("leaf vector running %+d past the end of the block", d), setLen(0, len(base)-2+d))
+	}
+	add("leaf length field 0", setLen(0, 0))
+	add("intermediate length field 0", setLen(2+len(leaf), 0))
+	add("leaf length field 65535", setLen(0, 65535))
+	add("intermediate length field 65535", setLen(2+len(leaf), 65535))
+	add("block 00 02 41 (length 2, one byte)", []byte{0, 2, 0x41})
+	add("block 00 01 (length 1, no bytes)", []byte{0, 1})
+	add("block 00 03 41 42 (length 3, two bytes)", []byte{0, 3, 0x41, 0x42})
+	add("leaf only, no intermediate prefix", base[:2+len(leaf)])
+	add("leaf and half of the intermediate prefix", base[:3+len(leaf)])
+	add("block cut by 1", base[:len(base)-1])
+	add("block cut by 2", base[:len(base)-2])
+	add("block cut by 3", base[:len(base)-3])
+	add("empty block", nil)
+	add("one byte", []byte{0})
+	return
+}
+
+// BuildClientAuth: a ClientAuth on the client's state after it read ServerAuth, with a chosen
+// plaintext for the certificate block; correct certificate tag, arbitrary final MAC.
+func BuildClientAuth(hs *transport.VerifHsState, pt []byte) []byte {
+	sh := NewShadow(hs.VerifHsDuplex())
+	sid := hs.VerifHsSessionID()
+	hdr := []byte{5, 0, byte(len(pt) >> 8), byte(len(pt))}
+	sh.Absorb(hdr)
+	sh.Absorb(sid[:])
+	ec := sh.Encrypt(pt)
+	tag := sh.Squeeze(16)
+	out := append(append(append([]byte(nil), hdr...), sid[:]...), ec...)
+	out = append(out, tag...)
+	return append(out, bytes.Repeat([]byte{0x5a}, 16)...)
+}
+
+// BuildHiddenRequestBlock: a hidden request whose certificate block decrypts to pt.
+func BuildHiddenRequestBlock(serverKEM *keys.KEMPublicKey, pt []byte) []byte {
+	sh := &Shadow{Fps: [][]byte{nil}}
+	sh.Reset()
+	sh.Absorb([]byte(PQHiddenName))
+	sh.Rekey(PQHiddenName)
+	eph := must(keys.GenerateKEMKeyPair(rand.Reader))
+	kpub, _ := eph.Public.MarshalBinary()
+	ct, k, err := keys.Encapsulate(rand.Reader, serverKEM)
+	if err != nil {
+		panic(err)
+	}
+	hdr := []byte{8, 1, byte(len(pt) >> 8), byte(len(pt))}
+	sh.Absorb(hdr)
+	sh.Absorb(kpub)
+	sh.Absorb(k)
+	ec := sh.Encrypt(pt)
+	tag := sh.Squeeze(16)
+	tb := make([]byte, 8)
+	binary.BigEndian.PutUint64(tb, uint64(time.Now().Unix()))
+	ets := sh.Encrypt(tb)
+	mac := bytes.Repeat([]byte{0x5a}, 16) // arbitrary: the block is parsed long before the MAC is looked at
+	out := append(append(append([]byte(nil), hdr...), kpub...), ct...)
+	out = append(out, ec...)
+	out = append(out, tag...)
+	out = append(out, ets...)
+	return append(out, mac...)
+}
+
+// C10CraftedCertBlocks: unauthenticated peers whose (encrypted) certificate block decrypts to crafted
+// vectors. Server side as model-compared sequences with probes; client side on the readers, the
+// crafting party being an impostor server.
+func (w *World) C10CraftedCertBlocks(r *hv.Rand) {
+	cleaf, cinter := marshalChain(w.Cli)
+	blocks, names := certBlocks(cleaf, cinter)
+	for ci, cfg := range w.c10configs() {
+		srv, ids := cfg.mk()
+		q := NewSeq(srv, ids, cfg.hidden)
+		ccfg := w.Cli.ClientConfig(w.P.Verify(PolStore, w.SrvName, nil, false))
+		skip := func(i int) bool { return ci%2 == 1 && !hv.Thorough() && i%3 != 1 } // several-certificate configurations: a third of the blocks in the quick tier
+		if cfg.hidden {
+			for i, b := range blocks {
+				if skip(i) {
+					continue
+				}
+				q.Step(w.NextAddr(), BuildHiddenRequestBlock(&ids[len(ids)-1].KEM.Public, b), "HiddenRequest[certificate block: "+names[i]+"]", nil)
+				if len(srv.Panics) > 0 {
+					break
+				}
+			}
+		} else {
+			// one client (hello printed once), a fresh address and handshake per crafted ClientAuth
+			chs, err := transport.VerifHsNewClientHS(&ccfg, srv.Addr, false)
+			if err != nil {
+				panic(err)
+			}
+			buf := make([]byte, 2000)
+			n, _ := transport.VerifHsWritePQClientHello(chs, buf)
+			hello := append([]byte(nil), buf[:n]...)
+			afterHello := chs.VerifHsDuplex()
+			q.Base(hello)
+			for i, b := range blocks {
+				if skip(i) {
+					continue
+				}
+				a := w.NextAddr()
+				out, _ := q.Step(a, hello, "ClientHello", nil)
+				if len(out) != 1 {
+					break
+				}
+				chs.VerifHsSetDuplex(afterHello)
+				if _, err := transport.VerifHsReadPQServerHello(chs, out[0].Data); err != nil {
+					break
+				}
+				chs.VerifHsRekey(PQName)
+				n, _ := chs.VerifHsWritePQClientAck(buf)
+				out, _ = q.Step(a, append([]byte(nil), buf[:n]...), "ClientAck", nil)
+				if len(out) != 1 {
+					break
+				}
+				if _, err := chs.VerifHsReadPQServerAuth(out[0].Data); err != nil {
+					break
+				}
+				q.Step(a, BuildClientAuth(chs, b), "ClientAuth[certificate block: "+names[i]+"]", nil)
+				if len(srv.Panics) > 0 {
+					break
+				}
+			}
+		}
+		ok, msg := true, ""
+		if len(srv.Panics) == 0 {
+			nc, _, _, err := w.connect(q, cfg, ids[len(ids)-1], w.NextAddr())
+			if err != nil {
+				ok, msg = false, fmt.Sprint("after the crafted certificate blocks a fresh honest handshake fails: ", err)
+			} else if m, good := w.probe(q, nc, q.Accept()); !good {
+				ok, msg = false, m
+			}
+		}
+		q.Emit("crafted-cert-block/"+cfg.name, fmt.Sprintf("%s server: %d messages whose encrypted certificate block decrypts to crafted vectors (inner lengths exact / +1 / +2 / +3 / -1 / 0 / 65535, degenerate blocks), then probe", cfg.name, len(blocks)),
+			ok, "C10:endpoint-wedged-after-junk", msg, true)
+	}
+	// ---- client side: an impostor server answers with a crafted block (ServerAuth / hidden response)
+	cv := w.P.Verify(PolStore, "", nil, false)
+	ccfg := w.Cli.ClientConfig(w.P.Verify(PolStore, w.SrvName, nil, false))
+	srv := NewSrv(SingleConfig(w.Srv, cv, false))
+	wb, err := NewWB(srv, ccfg, w.NextAddr())
+	if err != nil {
+		panic(err)
+	}
+	sleaf, sinter := marshalChain(w.Srv)
+	sblocks, snames := certBlocks(sleaf, sinter)
+	for i, b := range sblocks {
+		// the state before ServerAuth is shared by both parties: the impostor writes from it
+		sh := NewShadow(wb.PreSA)
+		eph := keys.GenerateNewX25519KeyPair()
+		cpub := wb.HS.VerifHsDHEphemeral().Public
+		ee, _ := eph.DH(cpub[:])
+		hdr := []byte{4, 0, byte(len(b) >> 8), byte(len(b))}
+		sid := r.Bytes(4)
+		sh.Absorb(hdr)
+		sh.Absorb(sid)
+		sh.Absorb(eph.Public[:])
+		sh.Absorb(ee)
+		ec := sh.Encrypt(b)
+		tag := sh.Squeeze(16)
+		m := append(append(append([]byte(nil), hdr...), sid...), eph.Public[:]...)
+		m = append(append(m, ec...), tag...)
+		m = append(m, bytes.Repeat([]byte{0xa5}, 16)...)
+		CaseSA(wb.HS, wb.PreSA, m, Meta{Prop: "C10", Class: "crafted-cert-block/client-reads-ServerAuth",
+			Desc: "readPQServerAuth on a ServerAuth whose certificate block decrypts to: " + snames[i], MustRej: i != 0,
+			Why: "the certificate block is crafted and the final MAC arbitrary", Sig: "C10:client-accepts-junk", NT: true})
+	}
+	hsrv := NewSrv(SingleConfig(w.Srv, cv, true))
+	hcfg := ccfg
+	hcfg.ServerKEMKey = &w.Srv.KEM.Public
+	hw, err := NewHWB(hsrv, hcfg, w.NextAddr())
+	if err != nil {
+		panic(err)
+	}
+	for i, b := range sblocks {
+		sh := NewShadow(hw.PreRS)
+		ect, ek, err := keys.Encapsulate(rand.Reader, &hw.HS.VerifHsKEMEphemeral().Public)
+		if err != nil {
+			panic(err)
+		}
+		hdr := []byte{9, 0, byte(len(b) >> 8), byte(len(b))}
+		sid := r.Bytes(4)
+		sh.Absorb(hdr)
+		sh.Absorb(sid)
+		sh.Absorb(ek)
+		ec := sh.Encrypt(b)
+		tag := sh.Squeeze(16)
+		m := append(append(append([]byte(nil), hdr...), sid...), ect...)
+		m = append(append(m, ec...), tag...)
+		m = append(m, bytes.Repeat([]byte{0xa5}, 16)...)
+		CaseSRH(hw.HS, w.Cli.Key, hw.PreRS, m, Meta{Prop: "C10", Class: "crafted-cert-block/client-reads-HiddenResponse",
+			Desc: "readPQServerResponseHidden on a response whose certificate block decrypts to: " + snames[i], MustRej: true,
+			Why: "the certificate block is crafted and the final MAC arbitrary", Sig: "C10:client-accepts-junk", NT: true})
 	}
 }
